@@ -370,3 +370,25 @@ func vDecodeSimple(lit []byte) []byte {
 	}
 	return s
 }
+
+// VerifC01_TypesUnderAnyRoot: a registered type whose own example breaks its
+// rule makes Check() fail whatever the root is - also an empty root, a root
+// of blanks or of a comment only, and a root that does not refer to the type.
+func VerifC01_TypesUnderAnyRoot() {
+	zzverif.Expect("accepted", "rejected")
+	v := vNumber("v.", 1, 1, true)
+	b := vNumber("b.", 1, 1, true)
+	typ := vJoin(v.text, []byte(" // {max: "), b.text, []byte("}"))
+	roots := []string{"", " ", "\n", "# only a comment", `{"unrelated": true}`, `@t`}
+	root := New("root", roots[zzverif.IntRange("root", 0, len(roots)-1)])
+	aerr := root.AddType("@t", New("@t", typ))
+	zzverif.Assert(aerr == nil, "a syntactically valid type can be registered")
+	lt, eq := vCmp(v, b)
+	err := root.Check()
+	zzverif.Assert((err == nil) == (lt || eq), "every registered type's example is checked against its rules, under any root")
+	if err == nil {
+		zzverif.Reach("accepted")
+	} else {
+		zzverif.Reach("rejected")
+	}
+}
